@@ -99,6 +99,11 @@ func genC16(r *RNG, tier string) []Case {
 	for i := 0; i < n; i++ {
 		crcOn := i%2 == 1
 		ct, alg := crcTok(r, crcOn)
+		if i%6 == 4 {
+			// the third announced algorithm: "undefined" (255, a master that knows nothing about checksums) — no
+			// checksum bytes, decoding must be what it is with checksums off
+			ct, alg = " alg=255", 255
+		}
 		// 1. common header: all five fields + flags, any type, any body
 		ts, typ, sid, flags, start := uint32(r.U64()), r.Intn(256), uint32(r.U64()), r.Intn(65536), uint32(r.U64()>>uint(r.Range(1, 24)))
 		if i%7 == 0 {
@@ -218,7 +223,16 @@ func genC16(r *RNG, tier string) []Case {
 					}
 					return "ok:" + hx(s.Bytes())
 				})
-				return Outcome{Impl: impl, Model: resp["model"], CorrOK: impl == resp["model"], OracleOK: true}
+				o := Outcome{Impl: impl, Model: resp["model"], CorrOK: impl == resp["model"], OracleOK: true}
+				// oracle for the three algorithms a format description can announce: off and undefined leave the
+				// event as it is, CRC32 removes exactly the last four bytes
+				switch {
+				case (alg == 0 || alg == 255) && impl != "ok:"+hx(b):
+					o.OracleOK, o.Note, o.FindingKey = false, fmt.Sprintf("checksum algorithm %d (no checksum) must leave the event unchanged", alg), "strip"
+				case alg == 1 && len(b) >= 4 && impl != "ok:"+hx(b[:len(b)-4]):
+					o.OracleOK, o.Note, o.FindingKey = false, "CRC32 must remove exactly the four trailing bytes", "strip"
+				}
+				return o
 			}})
 		}
 	}
